@@ -162,6 +162,26 @@ var NegSnippets = []NegSnippet{
 	neg("tuple", "tuple", "deriveTupleNeg", "()", "func negNone() {}\n\nvar negV = deriveTupleNeg(negNone())"),
 	neg("tuple", "mem", "deriveMemNeg", "()", "func negNone() {}\n\nvar negV = deriveMemNeg(negNone())"),
 	neg("tuple", "join", "deriveJoinNeg", "(int, int, int)", "func negThree() (int, int, int) { return 1, 2, 3 }\n\nvar negV = deriveJoinNeg(negThree())"),
+	// unnamed struct types as argument or as the type of a field, with zero, one and two fields
+	neg("anonstruct", "equal", "deriveEqualNeg", "struct{ X []int }", "func negUse(a, b struct{ X []int }) bool { return deriveEqualNeg(a, b) }"),
+	neg("anonstruct", "equal", "deriveEqualNeg", "struct{}", "func negUse(a, b struct{}) bool { return deriveEqualNeg(a, b) }"),
+	neg("anonstruct", "equal", "deriveEqualNeg", "struct{ C []int }", "type negA struct{ B struct{ C []int } }\n\nfunc negUse(a, b *negA) bool { return deriveEqualNeg(a, b) }"),
+	neg("anonstruct", "equal", "deriveEqualNeg", "struct{ C []int; D string }", "type negA struct{ B struct {\n\tC []int\n\tD string\n} }\n\nfunc negUse(a, b *negA) bool { return deriveEqualNeg(a, b) }"),
+	neg("anonstruct", "hash", "deriveHashNeg", "struct{ C []int }", "type negA struct{ B struct{ C []int } }\n\nfunc negUse(a *negA) uint64 { return deriveHashNeg(a) }"),
+	neg("anonstruct", "hash", "deriveHashNeg", "struct{ X []int }", "func negUse(a struct{ X []int }) uint64 { return deriveHashNeg(a) }"),
+	neg("anonstruct", "compare", "deriveCompareNeg", "struct{ C []int }", "type negA struct{ B struct{ C []int } }\n\nfunc negUse(a, b *negA) int { return deriveCompareNeg(a, b) }"),
+	neg("anonstruct", "clone", "deriveCloneNeg", "struct{ C []int }", "type negA struct{ B struct{ C []int } }\n\nfunc negUse(a *negA) *negA { return deriveCloneNeg(a) }"),
+	neg("anonstruct", "gostring", "deriveGoStringNeg", "struct{ C []int }", "type negA struct{ B struct{ C []int } }\n\nfunc negUse(a *negA) string { return deriveGoStringNeg(a) }"),
+	neg("anonstruct", "compare", "deriveCompareNeg", "struct{ X int }", "func negUse(a, b struct{ X int }) int { return deriveCompareNeg(a, b) }"),
+	neg("anonstruct", "mem", "deriveMemNeg", "struct{ X []int }", "func negUse(f func(a struct{ X []int }) int) { _ = deriveMemNeg(f) }"),
+	// named types that refer to themselves without a struct in between
+	neg("selfref", "equal", "deriveEqualNeg", "L", "type negL []negL\n\nfunc negUse(a, b negL) bool { return deriveEqualNeg(a, b) }"),
+	neg("selfref", "hash", "deriveHashNeg", "M", "type negM map[string]negM\n\nfunc negUse(a negM) uint64 { return deriveHashNeg(a) }"),
+	neg("selfref", "clone", "deriveCloneNeg", "L", "type negL []negL\n\nfunc negUse(a negL) negL { return deriveCloneNeg(a) }"),
+	neg("selfref", "compare", "deriveCompareNeg", "L", "type negL []negL\n\nfunc negUse(a, b negL) int { return deriveCompareNeg(a, b) }"),
+	neg("selfref", "gostring", "deriveGoStringNeg", "M", "type negM map[string]negM\n\nfunc negUse(a negM) string { return deriveGoStringNeg(a) }"),
+	neg("selfref", "equal", "deriveEqualNeg", "P", "type negP *negP\n\nfunc negUse(a, b negP) bool { return deriveEqualNeg(a, b) }"),
+	neg("selfref", "deepcopy", "deriveDeepCopyNeg", "P", "type negP *negP\n\nfunc negUse(a, b negP) { deriveDeepCopyNeg(a, b) }"),
 	// syntactically or type-wise broken user files
 	{Kind: "broken", Text: "package p\n\nfunc negBroken( {\n"},
 	{Kind: "broken", Text: "package p\n\nvar negX int = \"s\"\n"},
